@@ -1,5 +1,12 @@
 """C06 — gamma-function family: Factorial (memo table), Binomial_Coefficient, GammaLn, Gamma, the regularised
-incomplete gamma functions P and Q with their three methods, Upper/Lower incomplete gamma, Inv_GammaP/Q."""
+incomplete gamma functions P and Q with their three methods, Upper/Lower incomplete gamma, Inv_GammaP/Q.
+
+Case lines: single requests (fact, binom, binomhist, gammaln, gamma, gamrec, pq, gammaq, gammap, upper, lower, pser, qcf, qint, qmono, invp, invq;
+they all run one after the other in the harness's worker process) and call histories
+  seq m call_1 .. call_m     call = gammaln x | gamma x | gammaq x a | gammap x a | upper x a | lower x a | invp p a | invq q a | fact n | binom n k
+which the harness runs in ONE process that has called nothing before (forked from a server process started before any library call);
+the output is  m h_1 f_1 .. h_m f_m : the answer h_i inside the history and the answer f_i of a fresh process to the same call.
+The model side is call_run of coq/C06_Model.v (the factorial table is the only state; theorem C06_call_history_independent: h_i = f_i)."""
 import math, os, re, subprocess, sys, time, shutil
 if hasattr(sys, "set_int_max_str_digits"): sys.set_int_max_str_digits(0)     # factorials with thousands of digits are written into the S3 files
 from fractions import Fraction
@@ -20,6 +27,7 @@ LEVEL_TEXT = ("Theorems (Coq, all inputs / all histories, about the Gallina mode
               "nth k = k!, only ever appends to the table (size max(size,n+1)) and exits above 170; n! = n (n-1)!; Binomial_Coefficient returns exactly C(n,k) for 0<=k<=n<=170 from any reachable table, "
               "Pascal's rule, symmetry, 0 for n<k, exit for negative arguments; GammaP+GammaQ = 1, Upper+Lower = Gamma, GammaQ(0,a) = 1, the guards, which method answers where; "
               "on the quadrature branch (a > 100) the answer lies in [0,1]; "
+              "in every history of calls to the whole family in one process (the factorial table is the only state the model - like the source - has) each call gets the answer a fresh process gives, and a repeated call the same answer; "
               "GammaPser returns the k-th partial sum of sum_j x^j/(a(a+1)...(a+j)) times exp(-x + a ln x - GammaLn a) at the first k meeting the 2^-52 stopping test; GammaQcf's modified-Lentz state after n iterations is "
               "(A_{n-1}/A_n, Bt_n/Bt_{n-1}, Bt_n/A_n), i.e. the n-th convergent of the continued fraction with a_i = -i(i-a), b_i = x+2i+1-a (index advanced every iteration), as long as no clamp triggers; "
               "the reference identity e^-x sum_{k<=n} x^k/k! = 1 - (1/n!) RInt_0^x t^n e^-t used by the certified samples. "
@@ -37,6 +45,8 @@ LEVEL_NOTE = ("Coq 8.16.1 kernel; theorems over R use the standard library's rea
 TRUSTED = ["S4 reference: Python decimal (60 digits) series for P(x,a) with a Stirling-series log-gamma, self-tested at import against closed forms (integer and half-integer a)",
            "S3: Coq-Interval 4.x (interval tactic) on generated goals; the closed form for integer a is tied to the integral definition by theorem C06_q_integer_closed_form"]
 ASSUMPTIONS = ["'agree to 1e-12 / 1e-3' is read as absolute error on P and Q (both lie in [0,1])",
+               "the quantifier 'over histories' is read as: every clause holds for every answer after every history of calls in one process, and the answer to a request does not depend on the calls made before it "
+               "(the source has no state besides the factorial table, so an answer inside a history is required to equal, bit for bit, the answer of a fresh process)",
                "'a few units in the last place' for Gamma/GammaLn/Binomial is read on the scale of the intermediate terms of GammaLn (slack 4*eps*sum|t_k| per evaluation, DESIGN 5.3), "
                "since Gamma = exp(GammaLn) cannot be better than eps*|GammaLn| relative"]
 
@@ -202,9 +212,121 @@ def _pascal_case(n, k, tag):
     return Case(f"binomhist 4 {n} {k} {n-1} {k-1} {n-1} {k} {n} {n-k}", ("binomial",) + tag)
 
 
+# ---- histories of calls to the whole family in one (pristine) process: "seq m call_1 .. call_m"
+_QUANTILES = [0.001, 0.005, 0.01, 0.025, 0.05, 0.1, 0.25, 0.5, 0.75, 0.9, 0.95, 0.975, 0.99, 0.995, 0.999]
+P_LO, P_HI = 1.0000001e-12, 1 - 1.0000001e-12
+
+
+def _seq_a(rng):
+    r = rng.random()
+    if r < 0.30: return rng.choice([0.1, 0.25, 1 / 3, 0.5, 0.75, 0.9, 1.0, 1.5, 2.0, 2.5, 3.0, 5.0, 10.0, 25.0, 50.0, 99.0, 100.0])
+    if r < 0.42: return 10 ** rng.uniform(-2, 0)                      # a < 1: the inverse's power-law initial guess, x ~ p^(1/a)
+    if r < 0.52: return _near(rng, rng.choice([1.0, 100.0]))
+    if r < 0.62: return rng.choice([101.0, 150.0, 1000.0, 10 ** rng.uniform(2, 4)])
+    return _rand_a(rng)
+
+
+def _ladder(rng, v0, lo, hi, n):
+    """n values of one argument that vary slowly, repeat, or jump: the call histories of scans, tables and root searches"""
+    r = rng.random(); sgn = rng.choice([-1, 1]); out = [v0]
+    if r < 0.22:       # geometric ladder of decades (or fractions of a decade), going down or up
+        f = 10 ** (sgn * rng.choice([0.25, 0.5, 1, 1, 2, 3]))
+        for _ in range(n - 1): out.append(out[-1] * f)
+    elif r < 0.40:     # arithmetic scan with a small step (absolute 1e-9 .. 1e-2 of the scale)
+        d = sgn * max(abs(v0), 1e-300) * 10 ** rng.uniform(-9, -2)
+        for _ in range(n - 1): out.append(out[-1] + d)
+    elif r < 0.58:     # near-equal arguments: relative distances 1e-16 .. 1e-6, a geometric ladder, both sides
+        for k in range(n - 1):
+            e = rng.uniform(-16, -6) if rng.random() < 0.5 else -16 + 10 * k / max(n - 2, 1)
+            out.append(v0 * (1 + rng.choice([-1, 1]) * 10 ** e))
+    elif r < 0.68:     # neighbouring doubles
+        for _ in range(n - 1): out.append(math.nextafter(out[-1], sgn * math.inf))
+    elif r < 0.80:     # repeated identical arguments with far-away ones in between
+        for _ in range(n - 1): out.append(v0 if rng.random() < 0.5 else lo + (hi - lo) * rng.random())
+    elif r < 0.90:     # large then small (and back): jumps over many decades
+        for k in range(n - 1):
+            out.append((hi * 10 ** rng.uniform(-2, 0)) if k % 2 == 0 else max(lo, min(abs(v0), 1.0) * 10 ** rng.uniform(-12, -1)))
+        if rng.random() < 0.5: out.reverse()
+    else:              # bisection-like: halving steps towards a target
+        tgt = lo + (hi - lo) * rng.random()
+        for _ in range(n - 1): out.append(0.5 * (out[-1] + tgt))
+    return [min(max(v, lo), hi) for v in out]
+
+
+def _p_ladder(rng, a, n):
+    r = rng.random()
+    hi = P_HI if a <= 100.0 else 1 - 1e-6     # beyond: the region of K-C06-2, visited by the single-call stream under a quota
+    if r < 0.15:
+        ps = list(_QUANTILES)
+        if rng.random() < 0.5: ps.reverse()
+        k = rng.randint(0, max(0, len(ps) - n)); return ps[k:k + n]
+    if r < 0.55: p0 = 10 ** rng.uniform(-11.9, math.log10(0.5))            # lower tail
+    elif r < 0.8: p0 = 1 - 10 ** rng.uniform(-11.9, math.log10(0.5))       # upper tail
+    else: p0 = rng.random()
+    if r >= 0.55 and r < 0.8 and rng.random() < 0.6:      # ladder in 1-p
+        return [min(max(1 - q, P_LO), hi) for q in _ladder(rng, 1 - p0, P_LO, 0.5, n)]
+    return _ladder(rng, min(max(p0, P_LO), hi), P_LO, hi, n)
+
+
+def _seq_case(rng):
+    n = rng.choice([2, 2, 3, 4, 6, 8, 12, 16])
+    a = _seq_a(rng); top = a + 40 * math.sqrt(a) + 40
+    fam = rng.random(); calls = []
+    H = hx
+    if fam < 0.30:        # one inverse at fixed a, slowly varying / repeated / descending p (quantile tables, root searches)
+        op = rng.choice(["invp", "invp", "invq"]); tag = "inverse-ladder"
+        for p in _p_ladder(rng, a, n):
+            if op == "invq" and a > 100.0: p = max(p, 1e-6)     # q below 1e-6 at a > 100: the region of K-C06-2 again
+            calls.append(f"{op} {H(p)} {H(a)}")
+    elif fam < 0.40:      # both inverses interleaved at fixed a
+        tag = "inverse-interleaved"
+        for p in _p_ladder(rng, a, n):
+            calls.append(f"invp {H(p)} {H(a)}" if rng.random() < 0.5 else f"invq {H(min(max(1.0 - p, P_LO), P_HI if a <= 100 else 1.0))} {H(a)}")
+    elif fam < 0.55:      # one incomplete-gamma function at fixed a, ladder of x
+        op = rng.choice(["gammaq", "gammap", "upper", "lower"]); tag = "x-ladder"
+        for x in _ladder(rng, _rand_x(rng, a) or a, 0.0, top, n): calls.append(f"{op} {H(x)} {H(a)}")
+    elif fam < 0.68:      # fixed x (or p), ladder of the shape a: fine scans in a, derivatives with respect to a, a = 100 and a = 1 crossed
+        op = rng.choice(["gammaq", "gammap", "upper", "lower", "invp", "invq"]); tag = "a-ladder"
+        u = _rand_x(rng, a) if not op.startswith("inv") else min(max(rng.random(), 1e-6), 1 - 1e-6)
+        for b in _ladder(rng, a, 1e-8, 1e4, n):
+            uu = min(u, b + 40 * math.sqrt(b) + 40) if not op.startswith("inv") else u
+            calls.append(f"{op} {H(uu)} {H(b)}")
+    elif fam < 0.80:      # GammaLn / Gamma: ladders of x, x and x+1, near integers
+        tag = "gamma-ladder"
+        x0 = rng.choice([float(rng.randint(1, 170)), rng.uniform(0.01, 170.0), 10 ** rng.uniform(-6, 0), a if a <= 170 else 100.0])
+        for x in _ladder(rng, x0, 1e-10, 170.5, n):
+            op = rng.choice(["gammaln", "gamma"])
+            calls.append(f"{op} {H(x)}")
+            if rng.random() < 0.3 and x + 1 <= 171.0: calls.append(f"{op} {H(x + 1.0)}")
+    elif fam < 0.88:      # Factorial / Binomial_Coefficient histories mixed with the table-free functions
+        tag = "table-mixed"
+        for _ in range(n):
+            r = rng.random()
+            if r < 0.4: calls.append(f"fact {rng.choice([0, 1, 2, 22, 23, 169, 170, rng.randint(0, 170)])}")
+            elif r < 0.8:
+                m = rng.choice([rng.randint(0, 400), 169, 170, 171, 172]); calls.append(f"binom {m} {rng.randint(0, m)}")
+            else: calls.append(f"gamma {H(float(rng.randint(1, 171)))}")
+    else:                 # everything interleaved around one shape a: the functions call each other (GammaLn inside P/Q inside the inverses)
+        tag = "interleaved"
+        ps = _p_ladder(rng, a, n); xs = _ladder(rng, _rand_x(rng, a) or a, 0.0, top, n)
+        for p, x in zip(ps, xs):
+            op = rng.choice(["gammaln", "gamma", "gammaq", "gammap", "upper", "lower", "invp", "invq", "fact", "binom"])
+            if op in ("gammaln", "gamma"): calls.append(f"{op} {H(min(a, 170.0) if rng.random() < 0.7 else min(a + 1.0, 171.0))}")
+            elif op == "fact": calls.append(f"fact {rng.randint(0, 170)}")
+            elif op == "binom":
+                m = rng.randint(0, 400); calls.append(f"binom {m} {rng.randint(0, m)}")
+            elif op in ("invp", "invq"): calls.append(f"{op} {H(max(p, 1e-6) if (op == 'invq' and a > 100.0) else p)} {H(a)}")
+            else: calls.append(f"{op} {H(x)} {H(a)}")
+    calls = calls[:24]
+    return Case(f"seq {len(calls)} " + " ".join(calls), ("history", tag))
+
+
 def generate(rng, tier):
     cs = []
     big = tier != "quick"
+    # ---- histories of calls (one pristine process per case), every function of the family
+    for _ in range(3000 if big else 700):
+        cs.append(_seq_case(rng))
     # ---- Factorial histories (every call order is one case line); exits are cases of their own
     for _ in range(400 if big else 40):
         cs.append(Case("fact " + ilist(_history(rng)), ("factorial", "history")))
@@ -320,6 +442,15 @@ def _rel_close(u, v, r=1e-3): return abs(u - v) <= r * max(abs(u), abs(v), 1e-30
 
 def nontrivial(c, io):
     t = c.line.split(); op = t[0]
+    if op == "seq":
+        calls = seq_calls(c.line)
+        if len(calls) < 2 or io.split()[0] != str(len(calls)): return False
+        for u, w in zip(calls, calls[1:]):
+            if u[0] != w[0] or len(u) != 3 or u[0] in ("binom",): continue
+            x0, a0, x1, a1 = (float.fromhex(z) for z in (u[1], u[2], w[1], w[2]))
+            # the same function twice in a row with one argument kept and the other moved by less than 1e-3 (absolute or relative): the distance at which memo / warm-start shortcuts act
+            if (a0 == a1 and x0 != x1 and (abs(x0 - x1) < 1e-3 or _rel_close(x0, x1))) or (x0 == x1 and a0 != a1 and _rel_close(a0, a1)): return True
+        return any(nontrivial(Case(" ".join(cl)), "0x0p+0") for cl in calls if cl[0] not in ("fact", "binom", "invp", "invq"))
     if op == "fact":
         ns = [int(v) for v in t[2:]]; top = 0; grew = False
         for n in ns:
@@ -370,6 +501,87 @@ def _binom_slack(n, k):
     else: rel = gl_slack(n + 1.0) + gl_slack(k + 1.0) + gl_slack(n - k + 1.0) + 4 * EPS
     err = rel * Cx
     return Cx, (0.0 if err < 0.49 else err + 1.0)
+
+
+_ARITY = {"gammaln": 1, "gamma": 1, "fact": 1}
+
+
+def seq_calls(line):
+    """the calls of a 'seq m call_1 .. call_m' case as token lists"""
+    t = line.split(); m = int(t[1]); k = 2; calls = []
+    for _ in range(m):
+        ar = _ARITY.get(t[k], 2); calls.append(t[k:k + 1 + ar]); k += 1 + ar
+    return calls
+
+
+def _call_predicates(cl, val):
+    """the property's clauses for ONE call (token list) and its answer, through the single-call predicates"""
+    if cl[0] == "fact": return predicates(Case(f"fact 1 {cl[1]}"), f"1 {hx(val)}")
+    return predicates(Case(" ".join(cl)), hx(val))
+
+
+def _same(u, v): return u == v or (isinstance(u, float) and isinstance(v, float) and math.isnan(u) and math.isnan(v))
+
+
+def _seq_predicates(c, io, v, ex):
+    """a history of calls inside the domain: every clause holds for every answer of the history; the answer does not depend on the
+    calls made before (compared with a fresh process's answer to the same call); the clauses that relate several calls hold across the history"""
+    out = []
+    calls = seq_calls(c.line); m = len(calls)
+    def shown(j): return " ; ".join(_show_call(cl) for cl in calls[max(0, j - 3):j + 1])
+    if ex or len(v) != 1 + 2 * m or any(not isinstance(z, float) for z in v[1:]):
+        if any(isinstance(z, str) and z.startswith("FRESH_") for z in v): return [("history:fresh-process", f"a fresh process does not answer a call the history answers: {io[:120]}")]
+        return [("history:exit", f"a history of calls inside the domain ended with {io[:60]}: {shown(m - 1)}")]
+    hs = v[1::2]; fs = v[2::2]
+    for j, (cl, h, f) in enumerate(zip(calls, hs, fs)):
+        ph = _call_predicates(cl, h)
+        pf = ph if _same(h, f) else _call_predicates(cl, f)
+        fsig = {sg for sg, _ in pf}
+        for sg, msg in ph:
+            if sg in fsig: out.append((sg, msg + (f" [call {j + 1} of a history]" if j else "")))
+            else: out.append(("history:" + sg, f"after the calls {shown(j - 1)} in the same process: {msg}; a fresh process answers {f!r}, which meets the clause"))
+        if not _same(h, f):
+            out.append((f"history:{cl[0]}:depends-on-earlier-calls", f"{_show_call(cl)} = {h!r} after the calls {shown(j - 1)} in the same process, but {f!r} in a fresh process"))
+    # clauses relating several calls, across the history (whatever was called in between)
+    byarg = {}
+    for cl, h in zip(calls, hs): byarg.setdefault(tuple(cl), []).append(h)
+    for cl, hv in byarg.items():
+        if any(not _same(hv[0], z) for z in hv[1:]):
+            out.append((f"history:{cl[0]}:repeat", f"{_show_call(list(cl))} answered {hv[0]!r} and later {[z for z in hv[1:] if not _same(hv[0], z)][0]!r} in the same process"))
+    first = {k: hv[0] for k, hv in byarg.items()}
+    for k, q in first.items():
+        if k[0] == "gammaq" and ("gammap",) + k[1:] in first:
+            pp = first[("gammap",) + k[1:]]
+            if not (abs(pp + q - 1.0) <= 2 * EPS): out.append(("gammaq:p-plus-q", f"P + Q - 1 = {pp + q - 1.0!r} at (x={float.fromhex(k[1])!r}, a={float.fromhex(k[2])!r}) across a history"))
+        if k[0] == "upper" and ("lower",) + k[1:] in first and ("gamma", k[2]) in first:
+            lo = first[("lower",) + k[1:]]; g = first[("gamma", k[2])]
+            if math.isfinite(g) and g > 0 and not (abs(q + lo - g) <= 6 * EPS * g):
+                out.append(("gammaq:upper-plus-lower", f"Upper + Lower = {q + lo!r}, Gamma = {g!r} at (x={float.fromhex(k[1])!r}, a={float.fromhex(k[2])!r}) across a history"))
+        if k[0] == "fact" and int(k[1]) >= 1 and ("fact", str(int(k[1]) - 1)) in first and q != first[("fact", str(int(k[1]) - 1))] * int(k[1]):
+            out.append(("factorial:recurrence", f"Factorial({k[1]}) = {q!r} is not {k[1]} * Factorial({int(k[1]) - 1}) across a history"))
+        if k[0] == "gamma":
+            x = float.fromhex(k[1]); k1 = ("gamma", hx(x + 1.0))
+            if k1 in first and math.isfinite(first[k1]):
+                sl = gl_slack(x) + gl_slack(x + 1.0) + 4 * EPS; g1 = first[k1]
+                if not (abs(g1 - x * q) <= sl * abs(g1)): out.append(("gamma:recurrence", f"Gamma({x + 1.0!r}) = {g1!r} but x Gamma(x) = {x * q!r} across a history (allowed {sl:.3g})"))
+    # Q does not increase (P does not decrease) with x at fixed a, whatever the order of the calls
+    for fn, sgn in (("gammaq", 1.0), ("gammap", -1.0)):
+        bya = {}
+        for k, q in first.items():
+            if k[0] == fn: bya.setdefault(k[2], []).append((float.fromhex(k[1]), q))
+        for ah, pts in bya.items():
+            a = float.fromhex(ah); pts.sort()
+            for (x0, q0), (x1, q1) in zip(pts, pts[1:]):
+                if sgn * (q1 - q0) > max(mono_slack(x0, a), mono_slack(x1, a)):
+                    out.append((fn + ":monotone:" + region(a), f"{'GammaQ increases' if sgn > 0 else 'GammaP decreases'} from {q0!r} at x={x0!r} to {q1!r} at x={x1!r} (a={a!r}) across a history")); break
+    return out
+
+
+def _show_call(cl):
+    args = ", ".join((repr(float.fromhex(z)) if z.startswith(("0x", "-0x")) else z) for z in cl[1:])
+    name = {"invp": "Inv_GammaP", "invq": "Inv_GammaQ", "gammaq": "GammaQ", "gammap": "GammaP", "upper": "Upper_Incomplete_Gamma", "lower": "Lower_Incomplete_Gamma",
+            "gammaln": "GammaLn", "gamma": "Gamma", "fact": "Factorial", "binom": "Binomial_Coefficient"}[cl[0]]
+    return f"{name}({args})"
 
 
 def predicates(c, io):
@@ -475,6 +687,11 @@ def predicates(c, io):
         if p is not None:
             if not (0.0 <= p <= 1.0): out.append(("gammap:range:" + region(a), f"GammaP{where} = {p!r} lies outside [0,1]"))
             if not (abs(p - P) <= tol): out.append(("gammap:accuracy:" + region(a), f"GammaP{where} = {p!r}, reference {P!r}: error {abs(p-P):.3g} > {acc_tol(a):g}"))
+        if op in ("upper", "lower") and x > 0 and a <= 171.0:
+            # asked alone (inside a history): Gamma(a) Q(x,a) with the reference Gamma (glibc tgamma, a few ulp) and one GammaLn evaluation's slack
+            G = math.gamma(a); R = Q if op == "upper" else P
+            if math.isfinite(G) and not (abs(v[0] - G * R) <= (tol + gl_slack(a) + 8 * EPS) * G):
+                out.append((op + ":accuracy:" + region(a), f"{'Upper' if op == 'upper' else 'Lower'}_Incomplete_Gamma{where} = {v[0]!r}, Gamma_ref*{'Q' if op == 'upper' else 'P'}_ref = {G * R!r}"))
         if op == "pq":
             if not (abs(p + q - 1.0) <= 2 * EPS): out.append(("gammaq:p-plus-q", f"P + Q - 1 = {p + q - 1.0!r} at {where}"))
             if math.isfinite(g) and g > 0 and math.isfinite(up) and math.isfinite(lo):
@@ -482,6 +699,8 @@ def predicates(c, io):
                 if not (abs(up + lo - g) <= 6 * EPS * g): out.append(("gammaq:upper-plus-lower", f"Upper + Lower = {up + lo!r}, Gamma = {g!r} at {where}"))
                 if not (abs(up - g * Q) <= (tol + 4 * EPS) * g): out.append(("upper:accuracy:" + region(a), f"Upper_Incomplete_Gamma{where} = {up!r}, Gamma*Q_ref = {g * Q!r}"))
                 if not (abs(lo - g * P) <= (tol + 4 * EPS) * g): out.append(("lower:accuracy:" + region(a), f"Lower_Incomplete_Gamma{where} = {lo!r}, Gamma*P_ref = {g * P!r}"))
+    elif op == "seq":
+        out += _seq_predicates(c, io, v, ex)
     elif op == "qmono":
         a = float.fromhex(t[1]); pv = parse_vals(c.line); xs = pv[3:3 + pv[2]]
         if ex: return [("gammaq:exit", f"GammaQ exited inside the domain (a={a!r})")]
@@ -498,7 +717,7 @@ def predicates(c, io):
             return out
         if ex: return [(op + ":exit", f"{op}(p={p!r}, a={a!r}) exited")]
         if not (0.0 < p < 1.0): return out
-        x, back = v[0], v[1]
+        x, back = v[0], (v[1] if len(v) > 1 else None)     # inside a "seq" history only x is returned
         if not (x >= 0.0 and math.isfinite(x)):
             pe = p if op == "invp" else 1.0 - p
             if math.isnan(x): reg = "a>100:p-near-1" if (a > 100.0 and pe > 1 - 1e-6) else region(a)
@@ -516,7 +735,7 @@ def predicates(c, io):
             if not (min(tl, th) - referr <= p <= max(tl, th) + referr):
                 reg = "subnormal" if x < 2.2250738585072014e-308 else region(a)     # solution below the normal range: the density x^(a-1)/Gamma(a) overflows
                 out.append((op + ":inverse:" + reg, f"{name}({op}(p,a),a) = {target!r} for p = {p!r}, a = {a!r} (x = {x!r}): off by {abs(target-p):.3g} > {tol:g}"))
-        elif not (abs(back - p) <= tol + acc_tol(a)):
+        elif back is not None and not (abs(back - p) <= tol + acc_tol(a)):
             out.append((op + ":inverse-lib:" + region(a), f"library {name} at the returned x = {back!r} for p = {p!r}, a = {a!r}"))
     return out
 
